@@ -9,7 +9,7 @@ from __future__ import annotations
 import itertools
 
 from mc import refmodel as rm
-from mc.common import fmt_listing, flags_config, make_rule_doc, record_offsets, locate_matches
+from mc.common import JasmRaised, fmt_listing, flags_config, make_rule_doc, record_offsets, locate_matches
 
 # addresses: distinct, increasing, lower-case hex, lengths 1..8, every hex digit used, one of them
 # ("add") spells a mnemonic name used in rules
@@ -54,9 +54,10 @@ class ListingSet:
     def __init__(self, h, alphabet, maxlen, minlen=0, addrs=ADDRS):
         self.alphabet = alphabet
         self.items = []
-        for idx in listings_over(alphabet, maxlen, minlen):
+        for n, idx in enumerate(listings_over(alphabet, maxlen, minlen)):
             att = [(addrs[p], alphabet[i][0], alphabet[i][1]) for p, i in enumerate(idx)]
-            text = fmt_listing(att)
+            # every third listing prints its first instruction wrapped over two lines, as objdump does for long ones
+            text = fmt_listing(att, wrapped=(n % 3 == 1))
             norm = [norm_inst(*x) for x in att]
             self.items.append((idx, h.listing_file(text), norm, att))
 
@@ -97,6 +98,8 @@ def analyse(h, mop, ref, pattern, path, norm, *, want=("verdict",)):
     problems = []
     texts = h.match(mop, path, ret="list", mode="all", only_addr=False)
     rfound = ref.found(pattern, norm)
+    if not isinstance(texts, list) or not all(isinstance(t, str) for t in texts):
+        return [("types", "a list of strings", repr(texts)[:200])], rfound
     if "verdict" in want and bool(texts) != rfound:
         problems.append(("verdict", rfound, texts))
     if len(want) == 1 and want[0] == "verdict":
@@ -195,8 +198,13 @@ def run_rules(h, res, known, rules, lsets, shard, *, prop, macros=None, doc_extr
     for ri in range(shard["lo"], len(rules), shard["n"]):
         rc = rules[ri]
         ls = lsets[rc.lset]
-        for cfg in rc.cfgs:
+        variants = [(cfg, False) for cfg in rc.cfgs]
+        if ri % 5 == 0:
+            variants.append((rc.cfgs[0], True))   # same flags + a valid_addr_range (installs the optional observer; tags nothing here)
+        for cfg, with_range in variants:
             config = flags_config(*cfg)
+            if with_range:
+                config = dict(config, valid_addr_range={"min": "fffffff0", "max": "ffffffff"})
             doc = make_rule_doc(rc.pattern, config)
             if doc_extra:
                 doc.update(doc_extra)
@@ -210,7 +218,11 @@ def run_rules(h, res, known, rules, lsets, shard, *, prop, macros=None, doc_extr
             ref = rm.Ref(*cfg)
             for idx, path, norm, att in ls:
                 res.evaluations += 1
-                problems, rfound = analyse(h, mop, ref, rc.pattern, path, norm, want=rc.want)
+                try:
+                    problems, rfound = analyse(h, mop, ref, rc.pattern, path, norm, want=rc.want)
+                except JasmRaised as ex:
+                    rfound = ref.found(rc.pattern, norm)
+                    problems = [("raises", "a result", str(ex))]
                 if rfound:
                     res.nontrivial += 1
                     res.count("found")
@@ -220,7 +232,7 @@ def run_rules(h, res, known, rules, lsets, shard, *, prop, macros=None, doc_extr
                         res.nontrivial += 1
                 for clause, exp, obs in problems:
                     c = {"rule": doc, "listing": [[a, m, list(o)] for a, m, o in att], "family": rc.family,
-                         "clause": clause, "expected": exp, "observed": obs,
+                         "listing_text": open(path, newline="").read(), "clause": clause, "expected": exp, "observed": obs,
                          "size": len(att) * 10 + len(str(rc.pattern))}
                     res.fail(c, known)
         if len(res.samples) < 2 and len(ls) > 1:
@@ -239,8 +251,12 @@ def replay_case(case, h, want=("verdict",)):
         mop = h.mop(doc, macros=case.get("macros"))
     except Exception as e:
         return case.get("clause") == "compile", f"compile raised {e!r}"
-    problems, rfound = analyse(h, mop, rm.Ref(*cfg), doc["pattern"], h.listing_file(fmt_listing(att)), norm,
-                               want=tuple(case.get("want") or want))
+    text = case.get("listing_text") or fmt_listing(att)
+    lpath = h.write("replay_listing.s", text.encode() if "\r" in text else text)
+    try:
+        problems, rfound = analyse(h, mop, rm.Ref(*cfg), doc["pattern"], lpath, norm, want=tuple(case.get("want") or want))
+    except JasmRaised as ex:
+        return True, f"perform_matching raised {ex}"
     problems = [p for p in problems if p[0] == case.get("clause")] or problems
     return bool(problems), f"reference found={rfound}; problems={problems}"
 
